@@ -3,6 +3,10 @@ import NdnModel.PyDict
   Model of src/ndn/app_support/svs/sync.py : SvsInst.sync_handler, aggregate, on_timer (the
   decision taken when the timer fires), new_data, express_sync_interest (the vector carried).
   Time is abstracted: `timer` is an event the environment may deliver at any point.
+  Two levels: `step` takes one protocol event as one atomic decision; `stepX` (second half of the file) follows the
+  statements of the handler / `new_data` / the timer task in source order, with `next_sync_timing` and
+  `timer_rst_event` in the state, so that a callback that re-enters the instance (`new_data()` from inside
+  `on_missing_data`) is an event.  The compiled driver runs `stepX`; `Ndn.C18.stepX_refines_step` ties the two.
   Input vectors are the *decoded* entries; the byte-level half (the bytes of the name component, decoded with the
   generic TLV decoder of C08 over the regenerated StateVecWrapper schema, and the `except` clause) is
   NdnModel/SvsBytes.lean.
@@ -106,5 +110,178 @@ def run (s : State) : List Ev → State × List (List Out)
     let (s', o) := step s e
     let (s'', os) := run s' r
     (s'', o :: os)
+
+/-! ## The handler statement by statement, with the timer: re-entrancy
+
+`step` above takes one event of the protocol as one atomic decision.  The part below follows the *order of the
+statements* of `sync_handler` / `new_data` / `on_timer`, with the two fields the timer task reads
+(`next_sync_timing`, `timer_rst_event`) as part of the state, so that an application that calls `new_data()` from
+**inside** the missing-data callback (it only has to be non-blocking) is an event of the model, and so that moving
+the callback invocation inside the handler changes the model's answer (`handlerEarly`). -/
+
+/-- `next_sync_timing`, abstractly: what the timer task will wait for when it next computes its timeout -/
+inductive Due where
+  | steady      -- `time.time() + sample_sync_timer()`  : a fresh steady period
+  | sup         -- `time.time() + sample_sup_timer()`   : a suppression period
+  | now         -- `0`                                   : the timer fires as soon as the task runs
+  deriving Repr, DecidableEq
+
+/-- the instance together with what the timer task looks at -/
+structure TState where
+  st  : State
+  due : Due          -- next_sync_timing
+  rst : Bool         -- timer_rst_event is set (the timer task has not consumed it yet)
+  deriving Repr, DecidableEq
+
+/-- what the application does inside `on_missing_data`: call `new_data()` `pubs` times, then possibly raise -/
+structure Cb where
+  pubs   : Nat
+  raises : Bool
+  deriving Repr, DecidableEq
+
+/-- events of the statement-level model -/
+inductive EvX where
+  | recvCb (es : List Entry) (cb : Cb)   -- a sync Interest; if the callback fires it behaves as `cb`
+  | undecodable
+  | publish                              -- new_data() called by the application outside the handler
+  | timer                                -- the timer task's wait times out
+  deriving Repr
+
+/-- `recvPub v k`: receive `v` with a callback that publishes `k` times (and returns) -/
+abbrev EvX.recvPub (es : List Entry) (k : Nat) : EvX := .recvCb es ⟨k, false⟩
+/-- a received vector whose callback does nothing -/
+abbrev EvX.recv (es : List Entry) : EvX := .recvCb es ⟨0, false⟩
+
+def EvX.ofEv : Ev → EvX
+  | .recv es => .recv es
+  | .undecodable => .undecodable
+  | .publish => .publish
+  | .timer => .timer
+
+/-- what one step lets the outside see: the emissions / callback invocations in order, and whether the
+    exception raised by the application's callback propagated out of `sync_handler` -/
+structure ObsX where
+  outs   : List Out
+  raised : Bool
+  deriving Repr, DecidableEq
+
+/-- the statements of `new_data()` on a running instance -/
+def newData (t : TState) : TState :=
+  let q := t.st.selfSeq + 1
+  { st := { t.st with selfSeq := q, loc := PyDict.set t.st.loc t.st.selfId q,
+                      suppress := false },     -- self.state = SvsState.SyncSteady
+    due := .now,                                -- self.next_sync_timing = 0
+    rst := true }                               -- self.timer_rst_event.set()
+
+/-- the application's callback body: `k` calls of `new_data()` -/
+def callback : Nat → TState → TState
+  | 0, t => t
+  | k + 1, t => callback k (newData t)
+
+/-- the block `if need_notif or self.state == SyncSuppression: … else: …` of `sync_handler` -/
+def bookkeeping (t : TState) (rsv : Vec) (needNotif : Bool) : TState :=
+  if needNotif || t.st.suppress then
+    if !t.st.suppress then
+      { st := { t.st with suppress := true, agg := rsv }, due := .sup, rst := true }
+    else { t with st := { t.st with agg := aggregate rsv t.st.agg } }
+  else { t with due := .steady, rst := true }
+
+/-- `sync_handler` after the length test and the decoding, in the order of its statements:
+    build `rsv_dict` (return on over-claim) · merge · bookkeeping · **then** the callback -/
+def handler (t : TState) (es : List Entry) (cb : Cb) : TState × ObsX :=
+  if es.isEmpty then (t, ⟨[], false⟩) else
+  match buildRsv t.st.selfId t.st.selfSeq es [] with
+  | none => (t, ⟨[], false⟩)
+  | some rsv =>
+    let nn0 := rsv.any (fun p => !(PyDict.contains t.st.loc p.1))
+    let m := mergeLoop rsv t.st.loc false nn0
+    let t1 := { t with st := { t.st with loc := m.1 } }
+    let t2 := bookkeeping t1 rsv m.2.2
+    if m.2.1 then (callback cb.pubs t2, ⟨[.missing], cb.raises⟩) else (t2, ⟨[], false⟩)
+
+/-- the variant with the callback invoked right after the merge loop, **before** the bookkeeping block
+    (an exception of the callback then skips the bookkeeping) -/
+def handlerEarly (t : TState) (es : List Entry) (cb : Cb) : TState × ObsX :=
+  if es.isEmpty then (t, ⟨[], false⟩) else
+  match buildRsv t.st.selfId t.st.selfSeq es [] with
+  | none => (t, ⟨[], false⟩)
+  | some rsv =>
+    let nn0 := rsv.any (fun p => !(PyDict.contains t.st.loc p.1))
+    let m := mergeLoop rsv t.st.loc false nn0
+    let t1 := { t with st := { t.st with loc := m.1 } }
+    if m.2.1 then
+      let t2 := callback cb.pubs t1
+      if cb.raises then (t2, ⟨[.missing], true⟩)
+      else (bookkeeping t2 rsv m.2.2, ⟨[.missing], false⟩)
+    else (bookkeeping t1 rsv m.2.2, ⟨[], false⟩)
+
+/-- a variant of `new_data()` that, called from inside the handler, leaves `self.state` alone (still rearms the timer) -/
+def newDataKeep (t : TState) : TState :=
+  let q := t.st.selfSeq + 1
+  { st := { t.st with selfSeq := q, loc := PyDict.set t.st.loc t.st.selfId q }, due := .now, rst := true }
+
+def callbackKeep : Nat → TState → TState
+  | 0, t => t
+  | k + 1, t => callbackKeep k (newDataKeep t)
+
+/-- `handler` with that variant of `new_data()` inside the callback -/
+def handlerKeep (t : TState) (es : List Entry) (cb : Cb) : TState × ObsX :=
+  if es.isEmpty then (t, ⟨[], false⟩) else
+  match buildRsv t.st.selfId t.st.selfSeq es [] with
+  | none => (t, ⟨[], false⟩)
+  | some rsv =>
+    let nn0 := rsv.any (fun p => !(PyDict.contains t.st.loc p.1))
+    let m := mergeLoop rsv t.st.loc false nn0
+    let t1 := { t with st := { t.st with loc := m.1 } }
+    let t2 := bookkeeping t1 rsv m.2.2
+    if m.2.1 then (callbackKeep cb.pubs t2, ⟨[.missing], cb.raises⟩) else (t2, ⟨[], false⟩)
+
+/-- the `except TimeoutError` branch of `on_timer`: decide, emit, start a fresh steady period -/
+def fire (t : TState) : TState × List Out :=
+  let s := t.st
+  let r : State × List Out :=
+    if s.suppress then
+      ({ s with suppress := false }, if necessary s.loc s.agg then [.emit s.loc] else [])
+    else (s, [.emit s.loc])
+  ({ st := r.1, due := .steady, rst := false }, r.2)
+
+/-- the timer task gets to run (the handler has returned, nothing awaits inside it): if the reset event is set,
+    `wait_for` returns, the event is cleared and the timeout is recomputed from `next_sync_timing` — a timeout of 0
+    expires at once; otherwise the task stays parked on the deadline it had -/
+def settle (t : TState) : TState × List Out :=
+  if t.rst then
+    if t.due = .now then fire t else ({ t with rst := false }, [])
+  else (t, [])
+
+/-- one event, handler statements first, then the timer task -/
+def stepWith (h : TState → List Entry → Cb → TState × ObsX) (t : TState) : EvX → TState × ObsX
+  | .undecodable => (t, ⟨[], false⟩)
+  | .recvCb es cb =>
+    let r := h t es cb
+    let r' := settle r.1
+    (r'.1, ⟨r.2.outs ++ r'.2, r.2.raised⟩)
+  | .publish =>
+    let r' := settle (newData t)
+    (r'.1, ⟨r'.2, false⟩)
+  | .timer =>
+    let r' := fire t
+    (r'.1, ⟨r'.2, false⟩)
+
+/-- the code as it is -/
+def stepX : TState → EvX → TState × ObsX := stepWith handler
+/-- the variant whose re-entrant `new_data()` does not touch `self.state` -/
+def stepXKeep : TState → EvX → TState × ObsX := stepWith handlerKeep
+/-- the variant with the callback before the bookkeeping -/
+def stepXEarly : TState → EvX → TState × ObsX := stepWith handlerEarly
+
+/-- right after `start()` has let the timer task run once: parked on a steady period -/
+def initX (selfId : Bytes) (seq0 : Nat) : TState := { st := init selfId seq0, due := .steady, rst := false }
+
+def runX (t : TState) : List EvX → TState × List ObsX
+  | [] => (t, [])
+  | e :: r =>
+    let (t', o) := stepX t e
+    let (t'', os) := runX t' r
+    (t'', o :: os)
 
 end Ndn.Svs
